@@ -13,7 +13,15 @@ CFG = {
              "any family, colour, size, rect, limit, stream, and all their lengths are <= isize::MAX; output "
              "addresses lie inside the view (per-pixel, block and bi-planar families); a full decode whose "
              "surface contains the first unreadable offset, and any call with a hard reader error inside the "
-             "surface, ends in an I/O error, never in Ok. Tied to the code on every run by a hostile-input "
+             "surface, ends in an I/O error, never in Ok; the composed reader over a real stream refines C08's "
+             "ideal cursor (reader_refines_cursor: for every call, every stream, limit and allocator, a result "
+             "other than Io / MemoryLimitExceeded is the ideal decoder's result and reader position = base + "
+             "ideal position again, Io only if the first undeliverable offset lies before the end of the bytes the "
+             "call touches or a skip exceeds i64::MAX, MemoryLimitExceeded only if the limit is below the need, "
+             "the allocator refused or the surface exceeds isize::MAX; no size hypothesis for the forward calls), "
+             "and on a stream that delivers the data section with a sufficient limit every call list gives the "
+             "ideal results and after every prefix the reader position is base + the offset of the next surface "
+             "in C02's flattened list (reader_position_is_cursor_offset; data <= i64::MAX). Tied to the code on every run by a hostile-input "
              "differential run (structured and mutated headers, truncations at every offset, option matrix, fault "
              "injecting Read+Seek, all 73 formats x 12 colours) in release and overflow-checking builds under "
              "catch_unwind and a watchdog.",
